@@ -128,7 +128,8 @@ PROPS = {
                    'with the given sort value (or the partition point), and fast_subset on the sort column returns EXACTLY the rows whose sort value (timestamp) satisfies the constraint, '
                    'over the offsets abstraction (runs of strictly increasing sort values and row ids). (unit index) SubsetTracker::recent_updates hands out only the rows added since the version seen last within a major generation and everything otherwise, and records the version; Index::refresh is a no-op iff the versions agree, a full rebuild iff the major generation changed, the delta otherwise, and ends at the table\'s version; Index::refresh_serial (the batch loop) absorbs exactly the subset, the last partial batch included. (unit insert) over the keyed-map view KM (row store, hash index, number of keys) of the real SortedWritesTable: serial_insert and StagedOutputs::insert keep the invariant (one live row per key, hash entries = live rows, stored hash = hash of the key) and realise exactly the map update of each pending row; Rows::{add_row,set_stale,get_row,clear,next_row} keep stale_rows = number of stale rows; get_row / get_row_column return exactly the live row with the key or None when no live row has it; len() = rows - stale rows; merge() = removals, then every staged row through the merge function, then compaction, and row ids stay valid (rows only appended or marked stale) unless the major generation changed; maybe_rehash compacts exactly when stale > max(16, n/2) and then bumps the major generation; clear() empties rows and index and bumps the major generation of a non-empty table; version() = (generation, rows appended); eval / get_if / eval_constraints hand out a row iff it is live and satisfies EVERY constraint (Eq, EqConst, Lt/Gt/Le/GeConst, written from the documentation of the enum). (unit idxcache) Database::clear_table empties the table and leaves EVERY cached column/tuple index of it in the to-be-updated state (so the next index-backed read refreshes), touching no other table. The hash shards, RowBuffer, serial/parallel delete, parallel insert, rehash_impl (compaction itself), value-level rebuild and the index contents are assumed contracts, NOT covered.',
         level_note='Trusted: HashMap as a finite map (A-hash), [T]::binary_search_by_key specification for a total key closure (A-std), NumericId axioms, '
-                   'OffsetRange::new debug_assert taken as precondition; UfBuffer / SegQueue staging not covered. '
+                   'OffsetRange::new debug_assert taken as precondition; UfBuffer / SegQueue staging not covered: the staged (pending) writes of a SortedWritesTable live in SegQueues behind Arc<PendingState>, '
+                   'which cannot carry ghost state, so which writes are pending - and that clear() drops them also on its early-return path (seed C16-4) - is NOT proved; the thorough tier exercises it dynamically (replays/table_api). '
                    'Trait impl `impl Table for DisplacedTable` emitted as inherent impl (R-INHERENT).',
         assumptions=['SortedWritesTable, Rows, ShardedHashTable, rehash, remove_stale: assumed (unsafe, hashbrown)'],
     ),
